@@ -238,7 +238,7 @@ def gen_samples(sym, sclass, n, rng):
 SAMPLE_CLASSES = ["on-point", "noisy-small", "noisy-mid", "noisy-big",
                   "far-box", "huge", "tiny", "boundary:1e-1", "boundary:1e-3",
                   "boundary:1e-6", "boundary:1e-9", "axes"]
-SHAPES = ["0d", "1d", "2d", "3d", "empty"]
+SHAPES = ["0d", "1d", "2d", "3d", "empty", "2d-T", "2d-F", "3d-swap", "strided"]
 
 
 def reshape_kind(x, kind, rng):
@@ -255,6 +255,18 @@ def reshape_kind(x, kind, rng):
         return x.ravel()[:n].reshape(3, 2, -1) if n else x.ravel()[:0].reshape(3, 2, 0)
     if kind == "empty":
         return x.ravel()[:0]
+    if kind in ("2d-T", "2d-F", "3d-swap", "strided"):
+        n = x.size - x.size % 6
+        if n == 0:
+            return x.ravel()[:0].reshape(0, 2).T
+        y = x.ravel()[:n]
+        if kind == "2d-T":
+            return y.reshape(3, -1).T                 # transposed view
+        if kind == "2d-F":
+            return np.asfortranarray(y.reshape(2, -1))  # Fortran ordered
+        if kind == "3d-swap":
+            return np.swapaxes(y.reshape(3, 2, -1), 0, 2)
+        return np.repeat(y, 2)[::2].reshape(2, -1)[:, ::-1]   # negative stride view
     raise ValueError(kind)
 
 
@@ -351,7 +363,8 @@ def case_detect(ctx, rng, idx):
     r = gen_samples(m.symbols, sclass, n, rng)
     if cls == "BPSK" and sclass == "axes":
         pass
-    shape_kind = ["1d", "1d", "2d", "3d", "0d"][int(rng.integers(0, 5))]
+    shape_kind = ["1d", "1d", "2d", "3d", "0d", "2d-T", "2d-F", "3d-swap", "strided"][
+        int(rng.integers(0, 9))]
     r = reshape_kind(r, shape_kind, rng)
     if cls == "BPSK" and rng.random() < 0.3:
         r = np.asarray(r.real)      # BPSK is commonly fed real samples
